@@ -133,23 +133,36 @@ theorem nan_identity_witness :
         = some (Val.fin (14 / 9)) := by
   decide +kernel
 
-/-- `compute_derived_trace`: every rank evaluates the derived parameters of its slice `range(rank, n, size)`, the
-    per-rank lists are concatenated in rank order, and sample order is restored by matching sorted weights.
-    With pairwise distinct weights the stored trace is the trace in sample order, for every number of ranks. -/
-theorem derived_order {size : ℕ} (hs : 0 < size) {weights trace : List ℝ} (hn : weights.Nodup)
-    (hlen : trace.length = weights.length) : derivedTraceGather size weights trace = trace :=
-  derivedTraceGather_eq hs hn hlen
+/-- `compute_derived_trace` (current code): every rank evaluates the derived parameters of its slice
+    `range(rank, n, size)`; the per-rank traces and the per-rank sample indices are concatenated in rank order and
+    the trace is put back by the argsort of the gathered indices.  The stored trace is the trace in sample order
+    for EVERY trace and weight list (the same `restore` is applied to both) and every number of ranks. -/
+theorem derived_order {β : Type} [Inhabited β] {size : ℕ} (hs : 0 < size) (trace : List β) :
+    derivedTraceGather size trace = trace :=
+  derivedTraceGather_eq hs trace
 
-example : derivedTraceGather 2 [(0.2 : ℝ), 0.5, 0.3] [(10 : ℝ), 11, 12] = [10, 11, 12] :=
-  derived_order (by norm_num) (by
+/-- non-vacuity: the gather on 2 ranks really permutes (`[10, 12, 11]`) and the result is sample order -/
+example : gatherLists (partition 2 [(10 : ℝ), 11, 12]) ≠ [10, 11, 12] ∧
+    derivedTraceGather 2 [(10 : ℝ), 11, 12] = [10, 11, 12] :=
+  ⟨by simp [gatherLists, partition, strided, List.range, List.range.loop, List.zipIdx], derived_order (by norm_num) _⟩
+
+/-- Regression model of the pinned tree (before a42c6e3), which restored order by matching sorted weights:
+    with pairwise distinct weights that was correct … -/
+theorem derived_order_pinned {size : ℕ} (hs : 0 < size) {weights trace : List ℝ} (hn : weights.Nodup)
+    (hlen : trace.length = weights.length) : derivedTraceGatherPinned size weights trace = trace :=
+  derivedTraceGatherPinned_eq hs hn hlen
+
+example : derivedTraceGatherPinned 2 [(0.2 : ℝ), 0.5, 0.3] [(10 : ℝ), 11, 12] = [10, 11, 12] :=
+  derived_order_pinned (by norm_num) (by
     rw [List.nodup_cons, List.nodup_cons]
     refine ⟨?_, ?_, List.nodup_singleton _⟩ <;> simp <;> norm_num) rfl
 
-/-- K2: the hypothesis cannot be dropped.  Three samples of equal weight on two ranks are gathered as
-    `[t0, t2, t1]` and the weight matching leaves them there (exact rational arithmetic, stable argsort). -/
+/-- … and with tied weights it was not (defect K2): three samples of equal weight on two ranks were gathered as
+    `[t0, t2, t1]` and stayed there, while the current index-based re-ordering returns sample order
+    (exact rational arithmetic, kernel-decided). -/
 theorem derived_order_tie_witness :
-    derivedTraceGather 2 [(1 : Rat), 1, 1] [(10 : Rat), 11, 12] = [10, 12, 11] ∧
-    derivedTraceGather 1 [(1 : Rat), 1, 1] [(10 : Rat), 11, 12] = [10, 11, 12] := by
+    derivedTraceGatherPinned 2 [(1 : Rat), 1, 1] [(10 : Rat), 11, 12] = [10, 12, 11] ∧
+    derivedTraceGather 2 [(10 : Rat), 11, 12] = [10, 11, 12] := by
   decide +kernel
 
 end Taurex.C18
